@@ -210,6 +210,7 @@ func CallsR(fn *ssa.Function) []ssa.CallInstruction {
 //   - a captured variable of a directly called closure is the variable bound by its MakeClosure;
 //   - a result of an expanded helper call is the value the helper returns for that result when, nil/zero constants
 //     aside, all its returns agree on one value (the usual `return nil, err` / `return v, nil` shape).
+//
 // The steps are repeated; other values are returned with conversions stripped.
 func (r *Region) Canon(v ssa.Value) ssa.Value { return r.canon(v, 0) }
 
@@ -271,6 +272,21 @@ func (r *Region) canon(v ssa.Value, depth int) ssa.Value {
 				return v
 			}
 			return Strip(bound) // an address (the variable is captured by reference); callers compare addresses
+		case *ssa.UnOp:
+			// a load of a local variable that is assigned exactly once (a parameter spilled to memory because a closure
+			// captures it, a single-assignment local): the value assigned
+			if x.Op != token.MUL {
+				return v
+			}
+			al, ok := x.X.(*ssa.Alloc)
+			if !ok {
+				return v
+			}
+			vals := storedValues(al)
+			if len(vals) != 1 {
+				return v
+			}
+			v = vals[0]
 		case *ssa.Call:
 			w := r.uniqueResult(x, 0)
 			if w == nil {
